@@ -294,4 +294,88 @@ theorem handleConn_wait (e : Env) (r : Req) (hr : e.req = some r) (hroute : e.ro
           simp only [if_true, runW, Bool.not_true, Bool.false_eq_true, if_false, hpay _ (waitBytes_le_stream e)]
           exact fromDial_run e r _ true _ (waitBytes e) (waitBytes e)
 
+
+
+theorem copyRun_inv (e : Env) (k : Nat) : CopyInv (e.clientStream.drop k) e.targetStream (copyRun e k) :=
+  copyInv_run e.sched (copyInv_init _ _)
+
+theorem failL_step (c : CopySt) (l : Label) (hl : l ≠ .fail .left) (h : c.failL = false) : (stepCopy c l).failL = false := by
+  unfold stepCopy
+  split
+  · cases l with
+    | chunk s k => cases s <;> simpa [loopOf_left, loopOf_right, CopySt.deliver, CopySt.consume] using h
+    | eof s => cases s <;> simp [loopOf_left, loopOf_right, CopySt.finish, CopySt.closeWrite, h]
+    | fail s =>
+      cases s
+      · exact absurd rfl hl
+      · simpa [loopOf_right, CopySt.finish, CopySt.closeWrite] using h
+  · exact h
+
+theorem failL_run (sched : List Label) (c : CopySt) (hl : ∀ l ∈ sched, l ≠ .fail .left) (h : c.failL = false) :
+    (runSched c sched).failL = false := by
+  induction sched generalizing c with
+  | nil => exact h
+  | cons l ls ih =>
+    exact ih (stepCopy c l) (fun x hx => hl x (List.mem_cons_of_mem _ hx)) (failL_step c l (hl l (List.mem_cons_self ..)) h)
+
+/-- what the remote side has received, from the closed form -/
+theorem targetReceived_fromDial (e : Env) (r : Req) (pr : Bool) (p : Bytes) (k : Nat) (hd : e.dialErr = none) :
+    targetReceived (fromDial e r pr p k) = p ++ (if !pr && !e.proceedOk then [] else (copyRun e k).rxR) := by
+  simp only [fromDial, hd]
+  cases pr <;> cases e.proceedOk <;> simp [targetReceived]
+  all_goals (repeat' split) <;> simp [targetReceived]
+
+
+theorem clientReceived_fromDial (e : Env) (r : Req) (pr : Bool) (p : Bytes) (k : Nat) (hd : e.dialErr = none) :
+    clientReceived (fromDial e r pr p k) = (if !pr && !e.proceedOk then [] else (copyRun e k).rxL) := by
+  simp only [fromDial, hd]
+  cases pr <;> cases e.proceedOk <;> simp [clientReceived]
+  all_goals (repeat' split) <;> simp [clientReceived]
+
+theorem dialCount_fromDial (e : Env) (r : Req) (pr : Bool) (p : Bytes) (k : Nat) : dialCount (fromDial e r pr p k) = 1 := by
+  simp only [fromDial]
+  (repeat' split) <;> simp [dialCount]
+  all_goals (repeat' split) <;> simp [dialCount]
+
+/-- `handleConn` on a routed request, in closed form -/
+theorem handleConn_cases (e : Env) (r : Req) (hr : e.req = some r) (hroute : e.routeErr = none) :
+    handleConn e = .handshake :: .routed ::
+      (if waits e r then afterWait e r else fromDial e r false r.payload 0) := by
+  cases hw : waits e r
+  · simpa using handleConn_nowait e r hr hroute hw
+  · simpa using handleConn_wait e r hr hroute hw
+
+theorem waits_iff (e : Env) (r : Req) :
+    waits e r = true ↔ (r.payload = [] ∧ e.clientNative = true ∧ e.serverNative = false ∧ e.waitDisabled = false) := by
+  simp [waits, List.isEmpty_iff, and_assoc]
+
+theorem handleConn_routeErr (e : Env) (r : Req) (c : Code) (hr : e.req = some r) (h : e.routeErr = some c) :
+    handleConn e = [.handshake, .abort c, .closeClient] := by
+  simp [handleConn, hr, finish, runSteps, handleConnProgram, execStep, h, abortIf, routeAbort, St.emit, St.ret]
+
+
+theorem collect_mem_fromDial (e : Env) (r : Req) (pr : Bool) (p : Bytes) (k : Nat) (u : String) (d up : Nat)
+    (h : Action.collect u d up ∈ fromDial e r pr p k) :
+    e.dialErr = none ∧ (!pr && !e.proceedOk) = false ∧ u = r.user ∧ d = (copyRun e k).nR ∧ up = (copyRun e k).nL + p.length := by
+  simp only [fromDial] at h
+  revert h; (repeat' split) <;> simp_all
+
+theorem afterWait_ok (e : Env) (r : Req) (h1 : e.proceedOk = true) (h2 : e.setDeadlineOk = true) (h3 : e.waitKind ≠ .error)
+    (h4 : e.clearDeadlineOk = true) :
+    afterWait e r = .proceed :: .setDeadline :: .waitRead e.bufSize :: .clearDeadline ::
+      fromDial e r true (e.clientStream.take (waitBytes e)) (waitBytes e) := by
+  simp [afterWait, h1, h2, h3, h4]
+
+theorem collect_mem_afterWait (e : Env) (r : Req) (u : String) (d up : Nat) (h : Action.collect u d up ∈ afterWait e r) :
+    e.proceedOk = true ∧ e.setDeadlineOk = true ∧ e.waitKind ≠ .error ∧ e.clearDeadlineOk = true ∧
+      Action.collect u d up ∈ fromDial e r true (e.clientStream.take (waitBytes e)) (waitBytes e) := by
+  simp only [afterWait] at h
+  revert h; (repeat' split) <;> simp_all
+
+theorem closeWrite_mem_afterWait (e : Env) (r : Req) (s : Side) (h : Action.closeWrite s ∈ afterWait e r) :
+    e.proceedOk = true ∧ e.setDeadlineOk = true ∧ e.waitKind ≠ .error ∧ e.clearDeadlineOk = true ∧
+      Action.closeWrite s ∈ fromDial e r true (e.clientStream.take (waitBytes e)) (waitBytes e) := by
+  simp only [afterWait] at h
+  revert h; (repeat' split) <;> simp_all
+
 end SSV.TcpRelay
